@@ -24,6 +24,15 @@
                       (x) > 281474976710655ULL && (x) <= 72057594037927935ULL : __CPROVER_object_upto((z), 8); \
                       (x) > 72057594037927935ULL : __CPROVER_object_upto((z), 9))
 
+/* the same exact frame as ONE target of symbolic size (ternary-free length expression): nine conditional targets per
+ * call exhaust CBMC's memory in callers that carry loop contracts; selected with -DCALLEE_TAG_FRAME_SUM, enforced by
+ * callee/varintTaggedPut64/sumframe */
+#define M_TAGGED_LEN_SUM(x) (1u + ((x) > 240) + ((x) > 2287) + ((x) > 67823) + ((x) > 16777215ULL) + ((x) > 4294967295ULL) + \
+                             ((x) > 1099511627775ULL) + ((x) > 281474976710655ULL) + ((x) > 72057594037927935ULL))
+#ifdef CALLEE_TAG_FRAME_SUM
+#undef TAG_FRAME
+#define TAG_FRAME(z, x) __CPROVER_assigns(__CPROVER_object_upto((z), M_TAGGED_LEN_SUM(x)))
+#endif
 varintWidth varintTaggedPut64(uint8_t *z, uint64_t x)
     __CPROVER_requires(__CPROVER_w_ok(z, spec_tagged_len(x)))
     TAG_FRAME(z, x)
@@ -55,11 +64,20 @@ static inline uint64_t spec_tagged_decode(const uint8_t *z) {
     if (n >= 8) v = (v << 8) | z[8];
     return v;
 }
+#ifndef VERIF_NO_TAGGEDGET64_CONTRACT   /* frame-grade jobs (arbitrary input) state their own, weaker contract */
 varintWidth varintTaggedGet64(const uint8_t *z, uint64_t *pResult)
     __CPROVER_requires(__CPROVER_r_ok(z, 1) && __CPROVER_r_ok(z, spec_tagged_announced(z[0])))
     __CPROVER_requires(__CPROVER_w_ok(pResult, sizeof(uint64_t)))
     __CPROVER_assigns(*pResult)
     __CPROVER_ensures(RET == spec_tagged_announced(z[0]) && *pResult == spec_tagged_decode(z));
+#endif
+
+/* length-checked reader on arbitrary bytes: at most n (<= 9) bytes are readable */
+varintWidth varintTaggedGet(const uint8_t *z, int32_t n, uint64_t *pResult)
+    __CPROVER_requires(n >= 0 && n <= 9 && __CPROVER_r_ok(z, (size_t)n) && __CPROVER_w_ok(pResult, sizeof(uint64_t)))
+    __CPROVER_assigns(*pResult)
+    __CPROVER_ensures(RET == ((n < 1 || (unsigned)n < spec_tagged_announced(z[0])) ? 0 : spec_tagged_announced(z[0])))
+    __CPROVER_ensures(RET == 0 || *pResult == spec_tagged_decode(z));
 
 /* external fixed width put/get (any width 1..8; the value is truncated to width bytes) */
 void varintExternalPutFixedWidth(void *p, uint64_t v, varintWidth encoding)
